@@ -131,12 +131,29 @@ def _run_unit(task):
 
 
 def run_units(tasks, procs=None):
+    """run the work units on a process pool.  A unit that reports a model/code disagreement or
+    crashes is re-run once in a fresh process (units share long-lived worker processes and one
+    model-driver pipe per worker; a disagreement must not depend on what ran before it): only
+    what reproduces is reported, the rest is counted in `NOT_REPRODUCED`."""
     procs = procs or min(16, os.cpu_count() or 4)
     if not tasks:
         return []
     ctx = multiprocessing.get_context("fork")
     with ctx.Pool(procs, maxtasksperchild=200) as pool:
-        return pool.map(_run_unit, tasks, chunksize=4)
+        results = pool.map(_run_unit, tasks, chunksize=4)
+    suspicious = [i for i, r in enumerate(results) if r and (r.get("crash") or r.get("diff"))]
+    for i in suspicious[:12]:
+        with ctx.Pool(1, maxtasksperchild=1) as pool:
+            again = pool.map(_run_unit, [tasks[i]])[0]
+        if again and (again.get("crash") or again.get("diff")):
+            results[i] = again
+        else:
+            NOT_REPRODUCED.append(repr(tasks[i])[:200])
+            results[i] = again
+    return results
+
+
+NOT_REPRODUCED = []
 
 
 # ------------------------------------------------------------------ known findings / reporting
